@@ -213,9 +213,6 @@ class C02(Check):
                   suppress_health_check=list(HealthCheck), report_multiple_bugs=False)
         @given(table_strategy(), st.data())
         def prop(tab, data):
-            if runner.time_left() < 0:
-                res.truncated = True
-                return
             rows, operand_kind, use_ignore, mix = tab
             g = make_grammar(rows, operand_kind, use_ignore, mix)
             alpha = token_alphabet(rows, operand_kind, use_ignore, mix)
@@ -270,6 +267,8 @@ class C02(Check):
                     sent = sent[:i] + sent[i + 1:]
                 sep = ' ' if use_ignore and data.draw(st.booleans()) else ''
                 longer.append(sep.join(sent))
+            if runner.over_budget(res):
+                return
             res.hist['tables'] += 1
             res.hist['rows_%d' % len(rows)] += 1
             res.hist['operand_' + operand_kind] += 1
@@ -283,7 +282,10 @@ class C02(Check):
             def extra(name, t, exp, got, raw):
                 return validity(g, t, got, raw) if name == 'start' else None
             diff.eval_grammar(res, g, ['start', 'C1', 'C2', 'C3'], inputs + longer, nontrivial, 'c02', extra_check=extra, key_whole=True)
-        prop()
+        try:
+            prop()
+        except runner.StopTask:
+            pass
         return res
 
     def replay(self, case):
